@@ -33,6 +33,39 @@ CHECKS = {
  "C20": dict(tech="property-based testing (Hypothesis): metamorphic pairs of runs (never-stopping vs stopping at call k vs overwriting callback) over all callback forms",
              text="Exploration: callback called once per evaluation in the right convention with an in-bounds, already evaluated user-space point and its raw value; the run stopped at call k returns exactly what the never-stopping run handed to call k (nfev=k, status 3); overwriting the array changes nothing.",
              note=E2E_NOTE, ref="4/C20"),
+ "C04": dict(tech="property-based testing (Hypothesis): constructed reference instances with harness-side exact minimisers (closed forms, KKT system, active-set enumeration), default options",
+             text="Exploration: instances of the five reference families are built around chosen solutions (KKT construction for the box family, cross-checked by enumeration of the 3^n active sets); status 0, success, distance to the exact minimiser and feasibility are checked; three rare failure modes are listed known findings with history signatures.",
+             note="Distance thresholds per family calibrated on the unchanged tree; statistical by nature (see known_findings.txt KF-C04-1..3).", ref="4/C04"),
+ "C10": dict(tech="metamorphic property-based testing (Hypothesis): pairs of equivalent statements run and compared bitwise; component clause on internal linear residuals",
+             text="Exploration: fixed-variable elimination, Bounds vs array, dict vs NonlinearConstraint, split of two-sided constraints, merge of one-sided objects, scale=True vs the explicitly rescaled problem: same evaluated points (mapped through the restatement), same result; internal linear residuals equal the user's at build_x(point).",
+             note="Dyadic data make the harness-side restatement exact; end-to-end bitwise comparison of the scale / fixed restatements is made without linear constraints (see DESIGN.md), whose residuals are decided by the component clause.", ref="4/C10"),
+ "C11": dict(tech="property-based testing over schedules (Hypothesis-drawn choice sequences driving a harness-owned thread scheduler at user-call and line granularity), repetition, nesting, argument snapshots",
+             text="Exploration over schedules: K calls on K threads with exactly one thread running between yield points chosen by the drawn schedule (user-function calls, or every few line events inside cobyqa/ via sys.settrace), calls sharing bounds/constraint/options objects, nested calls, repeated calls, deep snapshots of every argument (also read-only arrays); each call must equal its stand-alone run bit for bit.",
+             note="Interleavings inside a bytecode or inside NumPy/LAPACK are reached only by the free-running stress mode, which is not reproducible by seed.", ref="4/C11, 6"),
+ "C12": dict(tech="stateful property-based testing (Hypothesis rule-based machine on a real Models instance) + end-to-end taps; tolerance scaled by measured conditioning",
+             text="Exploration over histories of replace / shift / reset (incl. near-degenerate replacements): every model interpolates every recorded value within 1e4*eps*kappa*T*M, a twin model fed the objective's values has the objective's residual, recorded values are the returned ones; the same residual clause after every model operation of real runs.",
+             note="kappa includes the squared ratio of extreme set diameters of the history; bounds that would be vacuous (kappa >= 1e12) are skipped and counted.", ref="4/C12"),
+ "C13": dict(tech="stateful property-based testing against an exact rational (fractions.Fraction) reference model + independent variational clause",
+             text="Exploration over histories: value, directional derivatives and curvature of the float model vs the same least-Frobenius-norm recursion in exact arithmetic; consistency of hess / hess_prod / curv / grad differences; invariance under base shifts; orthogonality of the (update of the) Hessian to every quadratic vanishing on the set.",
+             note="Reference built from the definition of the method (vf/ref/exact.py); clauses evaluated for conditioning below 1e8.", ref="4/C13"),
+ "C14": dict(tech="stateful property-based testing: Models.determinants vs exact determinant ratios by rational elimination",
+             text="Exploration over histories and candidate points within 4 set diameters: determinants(x,k) and determinants(x) equal det(W_new)/det(W_old) computed exactly, within 1e4*eps*kappa*M with M the first-order sensitivity of the updating formula.",
+             note="Comparisons for kappa < 1e10 and |ratio| in [1e-6, 1e6].", ref="4/C14"),
+ "C15": dict(tech="property-based testing (Hypothesis): direct calls of the five subproblem solvers on structured-degenerate data, validity predicate on the returned step",
+             text="Exploration: 80k (quick) generated subproblems with every listed degeneracy, half with coherent scales, half sweeping 12 decades; bounds exact, radius within rounding, linear admissibility with norm-based tolerances, no exception.",
+             note="Row-norm ratios beyond 1e12 are counted, not claimed (observation O1).", ref="4/C15"),
+ "C16": dict(tech="property-based testing (Hypothesis): same generator, harness-side evaluation of each subproblem objective and of the first-segment projected-gradient Cauchy step",
+             text="Exploration: no tangential step increases the model, no normal step increases the linearised violation, no geometry step decreases |c+q|, the bound-constrained tangential step achieves the Cauchy decrease, the Cauchy geometry step strictly improves when a representable first-order gain exists.",
+             note="Known finding KF-C16-1 (absolute small-gradient cut-off of the TCG solvers) is recognised by evaluating the solvers' own stopping predicate on the input.", ref="4/C16"),
+ "C17": dict(tech="exhaustive enumeration of the limit-pattern lattice + property-based testing (Hypothesis) of mixed objects through minimize's own normalisation",
+             text="Exhaustive for 1..2 (quick) / 1..3 (thorough) components over 15 consistent (lb,ub) patterns and a 5-point value grid for LinearConstraints, NonlinearConstraints and BoundConstraints; generated mixes of 0..3 objects of each kind with broadcasting, NaN coefficients, near-equal limits; Problem-level maxcv.",
+             note="The enumerated part is exhaustive for the stated lattice only.", ref="4/C17"),
+ "C18": dict(tech="property-based testing with taps on the trust-region state at every iteration + stateful rule machine on a bare TrustRegion",
+             text="Exploration: radius_final <= resolution <= radius, monotone resolution, finite non-negative penalty, centre = least-merit point (recomputed), replaced index != centre, status 0 only at resolution == radius_final, over radii spanning 30 decades and constants anywhere in their domains; rule machine over update_radius / short_step / enhance_resolution with a logarithmic bound on the number of reductions.",
+             note="'Reaches radius_final' is decided as a bound in the rule machine, not as a liveness proof of the main loop.", ref="4/C18, 6"),
+ "C19": dict(tech="exhaustive enumeration of single settings and coupled pairs on boundary lattices + property-based testing of random subsets (Hypothesis)",
+             text="Exhaustive singles (33 settings x 5-9 lattice points) and pairs (6 couples x lattice products); random subsets with unknown names; expected validity from the harness' own table; completed dicts checked for relations and documented defaults.",
+             note="The table of domains/relations in vf/props/c19.py transcribes the docstring and error messages.", ref="4/C19"),
 }
 NOT_YET = "check not built yet in this session (planned, see DESIGN.md section 4)"
 
